@@ -99,13 +99,21 @@ C11Group(i, T, sc, otherEnd) ==
 (* the action of step event i.  Clauses of line l+1 read acc/acc2/mk as    *)
 (* they were BEFORE that line (for a probe: the state of its parent).      *)
 (***************************************************************************)
+(* TLC integers are 32-bit and a reward may already arrive clipped to +-2^31 (a step-limit penalty of a large MultiCVRP
+   scenario, in fixed point): the accumulators saturate at +-2^30 instead of overflowing.  (Clauses that compare a return
+   with an objective are not asked of such episodes: they end by a limit hit.) *)
+SatBig == 1073741824
+SatAdd(a, b) ==
+  IF b >= SatBig \/ a >= SatBig THEN SatBig
+  ELSE IF b <= -SatBig \/ a <= -SatBig THEN -SatBig
+  ELSE LET c == a + b IN IF c >= SatBig THEN SatBig ELSE IF c <= -SatBig THEN -SatBig ELSE c
 TraceInit == l = StartLine /\ acc = 0 /\ acc2 = 0 /\ mk = TRUE
 TraceNext(Cl(_), Rew(_), Rew2(_), Allowed(_)) ==
   /\ l < NEv
   /\ l' = l + 1
   /\ Judge(l + 1, Cl(l + 1))
-  /\ acc'  = IF IsReset(l + 1) THEN 0 ELSE IF Ev(l + 1).main THEN acc + Rew(l + 1) ELSE acc
-  /\ acc2' = IF IsReset(l + 1) THEN 0 ELSE IF Ev(l + 1).main THEN acc2 + Rew2(l + 1) ELSE acc2
+  /\ acc'  = IF IsReset(l + 1) THEN 0 ELSE IF Ev(l + 1).main THEN SatAdd(acc, Rew(l + 1)) ELSE acc
+  /\ acc2' = IF IsReset(l + 1) THEN 0 ELSE IF Ev(l + 1).main THEN SatAdd(acc2, Rew2(l + 1)) ELSE acc2
   /\ mk'   = IF IsReset(l + 1) THEN TRUE ELSE IF Ev(l + 1).main THEN mk /\ Allowed(l + 1) ELSE mk
 Zero(i) == 0
 Always(i) == TRUE
@@ -114,7 +122,8 @@ Always(i) == TRUE
    Evaluated once, on the last line, over all reset events of the file. *)
 ResetLines == { j \in 2..NEv : IsReset(j) }
 C10NonConstant(i, Proj(_)) ==
-  IF i = NEv /\ Cardinality(ResetLines) >= 4
+  IF i = NEv /\ Cardinality(ResetLines) >= 8      \* (a generator with a handful of equally likely outcomes repeats itself
+                                                  \*  four times in a row too often for that to be evidence)
   THEN { <<"C10.generator_not_constant", Cardinality({ Proj(Ev(j).s) : j \in ResetLines }) >= 2>> }
   ELSE {}
 =============================================================================
